@@ -94,7 +94,7 @@ pub fn meta(tier: Tier) -> CheckMeta {
             "per key, issue order is consistent with batch creation order (DESIGN 7: the C09/C10 consistency rule)".into(),
             "duplicates yielded by set iteration are counted, not flagged".into(),
         ],
-        parts: vec![PartSpec { name: "native", nshards: 16, budget_s: tier.pick(300, 2400), env: vec![], program: None }],
+        parts: vec![PartSpec { name: "native", nshards: 16, budget_s: tier.pick(300, 2400), env: vec![], program: None, prepare: None, sanitizer: None }],
         must_be_nonzero: vec![
             ("store_reads_after_eviction", "no read ever went to the backing store"),
             ("commits_placed", "commit gate never used"),
@@ -478,7 +478,7 @@ fn classify(min: &[Op], kind: &str) -> String {
 pub fn worker(ctx: &WorkerCtx) -> Report {
     hooks::install();
     let mut rep = Report::default();
-    let n: u64 = if ctx.part == "miri" { 2 } else { ctx.tier.pick(120, 4000) };
+    let n: u64 = if ctx.part == "miri" { 2 } else { ctx.pick(3000, 60_000) };
     let base = Rng::new(ctx.seed).derive(900 + ctx.shard as u64);
     let mut reported = std::collections::HashSet::new();
     for i in 0..n {
@@ -486,7 +486,7 @@ pub fn worker(ctx: &WorkerCtx) -> Report {
         let cap = *r.pick(&[1u64, 1, 2, 2, 8]);
         let workers = *r.pick(&[1usize, 2]);
         let big = i % 10 == 9;
-        let len = if big { 30 } else { 20 + r.usize_below(ctx.tier.pick(120, 300)) };
+        let len = if big { 30 } else { 20 + r.usize_below(ctx.pick(120, 300)) };
         let ops = gen_ops(&mut r, len, big);
         let seed = r.next_u64();
         ctx.announce(&format!("C09 seq history {i} cap={cap} workers={workers} len={len}"));
